@@ -24,11 +24,161 @@ from . import np_model as NP
 from . import protomodel as pm
 from . import xreal as X
 from .engine import Unsupported, PyRaise, PathEnd, Builtin, EXTERNAL, Obj
-from .np_model import NDArray, QA, QE, QA2, conc, zi, norm, fact, fresh_fn, elem_of, implied
+from .np_model import NDArray
 
 _uid = itertools.count()
 R = z3.RealSort()
 I = z3.IntSort()
+
+# ------------------------------------------------------------------------------------------ what this module needs from pyvc.np_model
+# np_model is edited by other checks.  The small pure helpers are PINNED here (own copies); the array core that must be shared with
+# np_model (the NDArray value, boolean-mask enumeration, indexing, searchsorted, the hooks) is imported, and its presence and the two
+# patch points are verified at import time (a clear ImportError -> checker error, never a wrong verdict).
+_NP_API = ('NDArray', 'SORTS', 'mask_info', 'getitem', 'setitem', 'searchsorted', 'elementwise', '_scalar_op', '_result_dtype', '_binop', 'astype',
+           'from_nested', 'same_dim', 'dtype_arg', 'dtype_of_scalar', '_np_max', '_chain', 'EnumList', 'reduce_bool', 'reduce_sum')
+_missing = [a for a in _NP_API if not hasattr(NP, a)]
+if _missing:
+    raise ImportError('pyvc.warp_model: pyvc.np_model no longer provides %s (warp_model must be adapted)' % _missing)
+
+
+def conc(n):
+    """python int of an extent if it is concrete, else None."""
+    if isinstance(n, bool):
+        return int(n)
+    if isinstance(n, int):
+        return n
+    s = z3.simplify(n)
+    return s.as_long() if z3.is_int_value(s) else None
+
+
+def zi(i):
+    if isinstance(i, bool):
+        return z3.IntVal(int(i))
+    if isinstance(i, int):
+        return z3.IntVal(i)
+    if z3.is_expr(i) and i.sort() == z3.BoolSort():
+        return z3.If(i, z3.IntVal(1), z3.IntVal(0))
+    return i
+
+
+def norm(n):
+    c = conc(n)
+    return c if c is not None else n
+
+
+def _zb(c):
+    return z3.BoolVal(c) if isinstance(c, bool) else c
+
+
+def QA(n, body, lo=0):
+    """forall lo <= j < n. body(j); expanded when n is concrete"""
+    c, l = conc(n), conc(lo)
+    if c is not None and l is not None:
+        cs = [_zb(body(z3.IntVal(j))) for j in range(l, c)]
+        return z3.And(*cs) if cs else z3.BoolVal(True)
+    j = z3.Int('wq!%d' % next(_uid))
+    return z3.ForAll([j], z3.Implies(z3.And(j >= lo, j < n), _zb(body(j))))
+
+
+def QE(n, body, lo=0):
+    c, l = conc(n), conc(lo)
+    if c is not None and l is not None:
+        cs = [_zb(body(z3.IntVal(j))) for j in range(l, c)]
+        return z3.Or(*cs) if cs else z3.BoolVal(False)
+    j = z3.Int('wq!%d' % next(_uid))
+    return z3.Exists([j], z3.And(j >= lo, j < n, _zb(body(j))))
+
+
+def QA2(n, body):
+    """forall 0 <= a < b < n. body(a, b)"""
+    c = conc(n)
+    if c is not None:
+        cs = [_zb(body(z3.IntVal(a), z3.IntVal(b))) for a in range(c) for b in range(a + 1, c)]
+        return z3.And(*cs) if cs else z3.BoolVal(True)
+    a, b = z3.Int('wq!%d' % next(_uid)), z3.Int('wq!%d' % next(_uid))
+    return z3.ForAll([a, b], z3.Implies(z3.And(a >= 0, a < b, b < n), _zb(body(a, b))))
+
+
+def fact(run, f):
+    """library fact: quantified -> Run.axiom (never seen by the path solver), else Run.assume"""
+    if isinstance(f, bool):
+        if not f:
+            raise PathEnd()
+        return
+    f = z3.simplify(f) if not E._has_quantifier(f) else f
+    if z3.is_true(f):
+        return
+    if E._has_quantifier(f):
+        run.axiom(f)
+    else:
+        run.assume(f)
+
+
+def fresh_fn(run, name, arity, sort):
+    run.fresh_n += 1
+    return z3.Function('%s!%d' % (name, run.fresh_n), *([z3.IntSort()] * arity + [sort]))
+
+
+def elem_of(v, dtype):
+    """python scalar / z3 term -> z3 term of the element sort of `dtype`"""
+    s = NP.SORTS[dtype]
+    if z3.is_expr(v):
+        if v.sort() == s:
+            return v
+        if dtype == 'float':
+            return X.lift(v)
+        if dtype == 'int' and v.sort() == z3.BoolSort():
+            return zi(v)
+        if dtype == 'bool' and v.sort() == z3.IntSort():
+            return v != 0
+        raise Unsupported('array element of sort %s stored into a %s array' % (v.sort(), dtype))
+    return pm._lift(v, s)
+
+
+def implied(it, cond):
+    """is `cond` implied by the current path condition (quantifier-free check)?"""
+    if isinstance(cond, bool):
+        return cond
+    if it.pure:
+        return False
+    c = z3.simplify(cond)
+    if z3.is_true(c):
+        return True
+    if z3.is_false(c):
+        return False
+    return not it.run.feasible(z3.Not(c))
+
+
+def const_array(shape, dtype, v):
+    t = elem_of(v, dtype)
+    return NDArray(shape, dtype, lambda *idx: t)
+
+
+def fresh_array(run, name, shape, dtype):
+    f = fresh_fn(run, name, len(shape), NP.SORTS[dtype])
+    return NDArray(shape, dtype, lambda *idx: f(*idx))
+
+
+def shape_arg(it, s):
+    if isinstance(s, (list, tuple)):
+        return tuple(norm(zi(x)) for x in s)
+    if isinstance(s, NDArray):
+        raise Unsupported('array used as a shape')
+    return (norm(zi(s)),)
+
+
+def map1(fn_scalar, out_dtype):
+    """element-wise application of a scalar function to an array / nested list / scalar"""
+    def fn(it, args, kw):
+        a = args[0]
+        if isinstance(a, NDArray):
+            f = a.fn
+            return NDArray(a.shape, out_dtype or a.dtype, lambda *i: fn_scalar(it, f(*i)))
+        xs = None if (z3.is_expr(a) or isinstance(a, (bool, int, float))) else M.try_iterate(it, a)
+        if xs is not None:
+            return fn(it, [NP.from_nested(it, xs)], kw)
+        return fn_scalar(it, a)
+    return fn
 
 CONTRACTS = {}     # key -> text of the assumed library contract
 
@@ -271,7 +421,7 @@ def _lift_map(fn_x, out_dtype='float', tag=None):
 
     def fn(it, args, kw):
         a = args[0]
-        r = NP._map1(scalar, out_dtype)(it, [a], kw)
+        r = map1(scalar, out_dtype)(it, [a], kw)
         if tag is not None and isinstance(a, NDArray) and isinstance(r, NDArray):
             r.pred_of = (tag, a.fn, a.shape)          # ghost: r == tag(a) element-wise for this (immutable) content of a
         return r
@@ -531,6 +681,7 @@ def col0(it, m):
     r = NDArray((m.shape[0],), m.dtype, lambda i: f(i, z3.IntVal(0)))
     if hasattr(m, 'pred_of'):
         r.pred_of = m.pred_of + ('col0',)
+    r._src2 = m.fn            # remember the (n, 1) source so that `isfinite(a2d)` used as a mask on a2d itself is recognised
     m.__dict__['_col0'] = (m.fn, r)
     return r
 
@@ -555,6 +706,16 @@ def reshape(it, a, shape):
 
 
 _DTYPE = Obj('numpy.dtype', {'name': 'float64'})
+_np_dtype_arg = NP.dtype_arg
+
+
+def _dtype_arg(d, default=None):
+    if d is _DTYPE:
+        return 'float'
+    return _np_dtype_arg(d, default)
+
+
+NP.dtype_arg = _dtype_arg
 
 
 def _getattr(it, v, a):
@@ -617,10 +778,10 @@ def _np_reshape(it, args, kw):
 
 def _np_full(value):
     def fn(it, args, kw):
-        shape = NP._shape_arg(it, args[0] if args else kw['shape'])
+        shape = shape_arg(it, args[0] if args else kw['shape'])
         if len(shape) > 2:
             raise Unsupported('arrays of rank > 2')
-        return NP.const_array(shape, NP.dtype_arg(kw.get('dtype', args[1] if len(args) > 1 else None), 'float'), value)
+        return const_array(shape, NP.dtype_arg(kw.get('dtype', args[1] if len(args) > 1 else None), 'float'), value)
     return fn
 
 
@@ -724,15 +885,6 @@ def _setitem(it, base, idx, v):
 
 NP._chain('subscript_hook', _subscript)
 NP._chain('setitem_hook', _setitem)
-
-# col0 of an (n,1) array a: remember the source so that `isfinite(a2d)` used as a mask on a2d is recognised
-_col0_plain = col0
-
-
-def col0(it, m):          # noqa: F811
-    r = _col0_plain(it, m)
-    r._src2 = m.fn
-    return r
 
 
 # ------------------------------------------------------------------------------------------ distinct finite values of an array (ghost)
@@ -869,6 +1021,7 @@ def np_argmin(it, args, kw):
     anynan = named_bool(it, QE(n, lambda j: X.is_nan(f(j))), 'anynan')
     fact(run, z3.Implies(z3.Not(zb(anynan)), QA(n, lambda t: z3.And(X.le(f(b), f(t)), z3.Implies(t < b, X.lt(f(b), f(t)))))))
     fact(run, z3.Implies(zb(anynan), z3.And(X.is_nan(f(b)), QA(n, lambda t: z3.Implies(t < b, z3.Not(X.is_nan(f(t))))))))
+    run.__dict__.setdefault('np_argmins', []).append((c, b))        # ghost: lets a contract name the result
     return b
 
 
@@ -889,7 +1042,7 @@ def np_interp(it, args, kw):
         v = X.lift(v)
         mid = X.add(f0, xdiv(X.mul(X.sub(v, x0), X.sub(f1, f0)), X.sub(x1, x0)))
         return z3.If(X.is_nan(v), X.nan, z3.If(X.le(v, x0), f0, z3.If(X.le(x1, v), f1, mid)))
-    return NP._map1(one, 'float')(it, [x], {})
+    return map1(one, 'float')(it, [x], {})
 
 
 for _pkg in ('numpy', 'jax.numpy'):
@@ -945,3 +1098,79 @@ def _symbolic_loop(self, fr, s, it):
 
 
 E.Interp.symbolic_loop = _symbolic_loop
+
+
+# ------------------------------------------------------------------------------------------ tensorflow_probability pieces used by TransformToGaussian
+contract('tfp.bijectors.SoftClip', 'tfp.bijectors.SoftClip(low, high, hinge_softness).forward (low < high): element-wise, strictly increasing on the reals, '
+         'with values strictly between low and high; NaN for NaN')
+contract('tfp.distributions.Normal.quantile', 'tfp.distributions.Normal(0, 1).quantile is the standard normal quantile function (scipy.stats.norm.ppf) element-wise')
+TFP = 'tensorflow_probability.substrates.jax.'
+
+
+def _softclip(it, args, kw):
+    low, high = X.lift(kw.get('low', args[0] if args else None)), X.lift(kw.get('high', args[1] if len(args) > 1 else None))
+    run = it.run
+    run.fresh_n += 1
+    SC = z3.Function('SOFTCLIP!%d' % run.fresh_n, R, R)
+    x, y = z3.Real('sc!x%d' % run.fresh_n), z3.Real('sc!y%d' % run.fresh_n)
+    ok = z3.And(X.is_fin(low), X.is_fin(high), X.r(low) < X.r(high))
+    run.axiom(z3.ForAll([x, y], z3.Implies(z3.And(ok, x < y), SC(x) < SC(y)), patterns=[z3.MultiPattern(SC(x), SC(y))]))
+    run.axiom(z3.ForAll([x], z3.Implies(ok, z3.And(X.r(low) < SC(x), SC(x) < X.r(high))), patterns=[SC(x)]))
+
+    def fwd(it_, a, k):
+        use(it_, 'tfp.bijectors.SoftClip')
+        return _lift_map(lambda v: z3.If(X.is_fin(v), X.fin(SC(X.r(v))), z3.If(X.is_nan(v), X.nan, z3.If(X.is_pinf(v), high, low))))(it_, a, k)
+    return Obj('tfp.SoftClip', {'forward': Builtin('SoftClip.forward', fwd), 'low': low, 'high': high})
+
+
+def _normal(it, args, kw):
+    loc, scale = (list(args) + [kw.get('loc'), kw.get('scale')])[:2] if len(args) < 2 else args[:2]
+    if not (isinstance(loc, (int, float)) and isinstance(scale, (int, float)) and float(loc) == 0.0 and float(scale) == 1.0):
+        raise Unsupported('tfp Normal(%r, %r): only the standard normal is modelled' % (loc, scale))
+
+    def quantile(it_, a, k):
+        use(it_, 'tfp.distributions.Normal.quantile')
+        return _lift_map(xppf)(it_, a, k)
+    return Obj('tfp.Normal', {'quantile': Builtin('Normal.quantile', quantile)})
+
+
+EXTERNAL[TFP + 'bijectors.SoftClip'] = Builtin('tfp.bijectors.SoftClip', _softclip)
+EXTERNAL[TFP + 'distributions.Normal'] = Builtin('tfp.distributions.Normal', _normal)
+
+# np.min / np.max of an integer array (argsort result): through the float contract
+_minmax_float = _np_minmax
+
+
+def _np_minmax_any(which):
+    inner = _minmax_float(which)
+
+    def fn(it, args, kw):
+        a = args[0]
+        if isinstance(a, NDArray) and a.dtype == 'int' and kw.get('axis', args[1] if len(args) > 1 else None) is None:
+            return _extreme(it, NP.astype(a, 'float'), which, False, which)
+        return inner(it, args, kw)
+    return fn
+
+
+for _pkg in ('numpy', 'jax.numpy'):
+    EXTERNAL[_pkg + '.min'] = Builtin('np.min', _np_minmax_any('min'))
+    EXTERNAL[_pkg + '.max'] = Builtin('np.max', _np_minmax_any('max'))
+
+
+# ------------------------------------------------------------------------------------------ import-time self-check of the np_model patch points
+def _self_check():
+    """array / scalar must go through the patched scalar operation (true division is not modelled by np_model itself)"""
+    class _Run:
+        fresh_n = 0
+    a = NDArray((2,), 'float', lambda i: X.fin(z3.RealVal(6)))
+    try:
+        r = NP.elementwise(None, ast.Div(), a, X.fin(z3.RealVal(3)))
+        v = z3.simplify(r.at(0))
+        ok = r.dtype == 'float' and v.eq(X.fin(z3.RealVal(2)))
+    except Exception as e:  # noqa: BLE001
+        ok, v = False, e
+    if not ok:
+        raise ImportError('pyvc.warp_model: np_model.elementwise no longer dispatches through np_model._scalar_op/_result_dtype (%r)' % (v,))
+
+
+_self_check()
